@@ -46,6 +46,7 @@ func cmdCheck(args []string) int {
 	noev := fs.Bool("noevidence", false, "do not write evidence")
 	timeout := fs.Int("timeout", 0, "per-obligation timeout seconds")
 	obsel := fs.String("ob", "", "only obligations whose name contains this string")
+	noinc := fs.Bool("noinc", false, "skip the incremental pre-pass")
 	fs.Parse(args)
 	start := time.Now()
 	eng, err := newEngine(*repo, allPkgs)
@@ -115,7 +116,7 @@ func cmdCheck(args []string) int {
 			fmt.Println("queries kept in", dir)
 		}
 	}()
-	opt := solveOpts{timeout: 20 * time.Second, workers: runtime.NumCPU(), dir: dir, solvers: []string{"z3new", "z3", "cvc5"}, keep: *keep}
+	opt := solveOpts{timeout: 20 * time.Second, workers: (runtime.NumCPU() + 1) / 2, dir: dir, solvers: []string{"z3new", "z3", "cvc5"}, keep: *keep}
 	if *tier == "thorough" {
 		opt.timeout = 60 * time.Second
 		opt.allAgree = true
@@ -124,6 +125,7 @@ func cmdCheck(args []string) int {
 		opt.timeout = time.Duration(*timeout) * time.Second
 	}
 	opt.only = *obsel
+	opt.noInc = *noinc
 	results := solveAll(eng, fvs, opt)
 	failed := report(eng, *prop, *tier, fvs, results, under, start, loadMs, *verbose, *evdir, *noev, dir)
 	if failed > 0 {
@@ -286,6 +288,7 @@ func report(eng *Engine, prop, tier string, fvs []*funcVC, results []*Result, un
 			fmt.Printf("SLOW %dms %s (%s)\n", results[i].Ms, results[i].Ob.Name, results[i].Solver)
 		}
 	}
+	fmt.Printf("govc: by-solver %v\n", bySolver)
 	fmt.Printf("govc: property=%s tier=%s functions=%d obligations=%d discharged=%d failed=%d known=%d load=%dms solver_total=%dms max=%dms wall=%.1fs\n",
 		prop, tier, len(fvs), nobl, discharged, failed, len(knownSeen), loadMs, totalMs, maxMs, wall)
 	if nobl == 0 {
